@@ -4,7 +4,7 @@ import sys
 import traceback
 
 from conductor.errors import ConductorError, UnsupportedPlatform
-from conductor.errors.signal import register_signal_handlers
+from conductor.errors.signal import register_signal_handlers, raise_pending_abort
 
 
 @contextlib.contextmanager
@@ -46,6 +46,7 @@ def cli_command(main):
             check_platform_compatibility()
             register_signal_handlers()
             main(args)
+            raise_pending_abort()
         except ConductorError as ex:
             if args.debug:
                 print(traceback.format_exc(), file=sys.stderr)
